@@ -99,7 +99,8 @@ def expr_hook(tr, e, env, want):
             if ty not in tr.dicts:
                 raise U(f"dict() of {ty}")
             return t, ty                                  # a copy of an (immutable) value
-        if isinstance(e.func, ast.Attribute) and e.func.attr == "get" and len(e.args) == 1 and not e.keywords:
+        if isinstance(e.func, ast.Attribute) and e.func.attr == "get" and len(e.args) == 1 and not e.keywords \
+                and ast.unparse(e.func) not in tr.spec.get("calls", {}):      # (a call the spec declares is the spec's)
             d, dty = tr.expr0(e.func.value, env)
             if dty in tr.dicts:
                 dd = tr.dicts[dty]
